@@ -492,7 +492,7 @@ func (x *Exec) applyContract(p *Path, ct *Contract, vars map[string]SV, results 
 		chk("cell", cfs.cells)
 		chk("arr", cfs.arrs)
 		chk("map", cfs.maps)
-		if cfs.all {
+		if cfs.all || (cfs.tree && !x.cur.frame.tree) {
 			x.oblig(p, tag+"/frame", "false", x.cur.ct.Props, x.pos(in))
 		}
 	}
@@ -540,7 +540,7 @@ func (x *Exec) applyContract(p *Path, ct *Contract, vars map[string]SV, results 
 			p.assume(ax)
 		}
 		x.seedFrame(p, &cfs, pre, post)
-		if !cfs.all && len(cfs.lists)+len(cfs.objs)+len(cfs.arrs)+len(cfs.maps) == 0 {
+		if !cfs.all && !cfs.tree && len(cfs.lists)+len(cfs.objs)+len(cfs.arrs)+len(cfs.maps) == 0 {
 			p.assume(fmt.Sprintf("(ext %s %s)", pre, post)) // nothing that existed was modified
 			p.prevH = ""
 			x.extStep(p, post, "ghost")
